@@ -387,7 +387,9 @@ func (parser *Parser) ParseExpression(depth int) (res Sexp, err error) {
 		if err := parser.awaitOperand(depth); err != nil {
 			return SexpNull, err
 		}
-		expr, err := parser.ParseExpression(depth + 1)
+		// the operand of a prefix is at the depth of the prefix: at top level the
+		// end of the input ends it (a final sign, a last token without a blank)
+		expr, err := parser.ParseExpression(depth)
 		if err != nil {
 			return SexpNull, err
 		}
@@ -397,7 +399,9 @@ func (parser *Parser) ParseExpression(depth int) (res Sexp, err error) {
 		if err := parser.awaitOperand(depth); err != nil {
 			return SexpNull, err
 		}
-		expr, err := parser.ParseExpression(depth + 1)
+		// the operand of a prefix is at the depth of the prefix: at top level the
+		// end of the input ends it (a final sign, a last token without a blank)
+		expr, err := parser.ParseExpression(depth)
 		if err != nil {
 			return SexpNull, err
 		}
@@ -406,7 +410,9 @@ func (parser *Parser) ParseExpression(depth int) (res Sexp, err error) {
 		if err := parser.awaitOperand(depth); err != nil {
 			return SexpNull, err
 		}
-		expr, err := parser.ParseExpression(depth + 1)
+		// the operand of a prefix is at the depth of the prefix: at top level the
+		// end of the input ends it (a final sign, a last token without a blank)
+		expr, err := parser.ParseExpression(depth)
 		if err != nil {
 			return SexpNull, err
 		}
@@ -415,7 +421,9 @@ func (parser *Parser) ParseExpression(depth int) (res Sexp, err error) {
 		if err := parser.awaitOperand(depth); err != nil {
 			return SexpNull, err
 		}
-		expr, err := parser.ParseExpression(depth + 1)
+		// the operand of a prefix is at the depth of the prefix: at top level the
+		// end of the input ends it (a final sign, a last token without a blank)
+		expr, err := parser.ParseExpression(depth)
 		if err != nil {
 			return SexpNull, err
 		}
